@@ -5,7 +5,7 @@ Driver for stream `blocks` (C06): one op per line, one observation per line.
   hdr <idx> <hash> <prev> <ts> <nc> <psr> <wit>   -> ok             (a header the node already stores)
   node bh=<n> root=<r>                       -> ok
   bal <name>=<n> ...                         -> ok
-  pool <id>/<wit>,<id>/<wit>...|-            -> ok                  (mempool: tx hash and witness id)
+  pool <tx>,<tx>...|-                        -> ok                  (mempool: the pooled transactions, described like block transactions)
   sig <wit> <hash> <addr> <b>                -> ok                  (fact: does the witness sign the hash for addr)
   undecodable                                -> ok                  (bytes that do not decode never reach AddBlock)
   note <text>                                -> ok                  (a step of the case that is judged by the oracle only)
@@ -23,7 +23,7 @@ Driver for stream `blocks` (C06): one op per line, one observation per line.
         tx = id:wit:sys:net:vub:size:scriptok:<signer>+..:<attr>+..|-
         signer = name/<scope None>/<s<hashOk><native><scriptsOk><result>.<cost> | m | x>
         attr = hp | or.<scriptok><requestok>.<gas> | nvb.<h> | cf.<hash> | na.<nkeys> | rs.<type>
-     -> ok bh=<n> hh=<n> stored=<hash>/<wit> stale=<number of block txs still in the mempool>
+     -> ok bh=<n> hh=<n> stored=<hash>/<wit> stale=<number of block txs still in the mempool> pool=<ids left in the mempool>
       | err:<class> bh=<n> hh=<n> ledger=same pool=same db=<same|hdr>      class tx = tx/<reason>@<position>
 -/
 import NeoModel.Base.Proto
@@ -57,6 +57,7 @@ structure DState where
   sigs : List (Nat × Nat × Nat)
   ccfg : ChainCfg := {}
   recs : List (Nat × Rec) := []
+  poolObjs : List VTx := []      -- the pooled transactions as described on the `pool` line
 
 def emptyNode : Node Nat :=
   { cfg := { sr := false, verifyTx := true, skip := false }, blockHeight := 0, headers := [], ledger := 0, pool := [] }
@@ -201,8 +202,15 @@ def doAddBlock (st : DState) (ws : List String) : Option (DState × String) := d
     balance := fun _ a => balOf st a,
     apply := fun _ blk => if burnOK (balOf st) blk.txs then some newroot else none,
     rootOf := fun l => l,
-    keep := fun _ _ => true,
-    spoil := fun l _ => l,    -- follow-ups of a failed execution are not tied (see `note`)
+    -- IsTxStillRelevant at the state after this block (height + 1, the records the block leaves), with the
+    -- scratch pool's conflict test; the pool's own balance bookkeeping is not modelled
+    keep := fun _ q =>
+      match st.poolObjs.find? (fun v => v.id == q.id && v.wit == q.wit) with
+      | some v =>
+        let after : Chain := { chain with height := chain.height + 1, lookup := lookupAfter chain.lookup txv (fun _ => .none) }
+        stillRelevant after v (blockConflict txv v) (v.wits.map Witness.stdCost)
+      | none => true,
+    spoil := fun l _ => l,
     nvals := st.ccfg.nvals }
   let (n', e) := addBlock env st.node b
   let hh := n'.headerHeight
@@ -212,7 +220,11 @@ def doAddBlock (st : DState) (ws : List String) : Option (DState × String) := d
       | some h => s!"{hexPad h.hash 12}/{witStr h.wit}"
       | none => "?"
     let stale := (n'.pool.filter (fun q => b.txs.any (fun t => t.id == q.id))).length
-    pure ({ st with node := n' }, s!"ok bh={n'.blockHeight} hh={hh} stored={stored} stale={stale}")
+    let ids := (n'.pool.map (fun q => hexPad q.id 12)).toArray.qsort (· < ·) |>.toList
+    let pl := if ids.isEmpty then "-" else String.intercalate "," ids
+    let st' := { st with node := n', poolObjs := st.poolObjs.filter (fun v => n'.pool.any (fun q => q.id == v.id && q.wit == v.wit)),
+                         ccfg := { st.ccfg with height := st.ccfg.height + 1 } }
+    pure (st', s!"ok bh={n'.blockHeight} hh={hh} stored={stored} stale={stale} pool={pl}")
   | some er =>
     let db := if n'.headers.length == st.node.headers.length then "same" else "hdr"
     let cls := match er with
@@ -330,16 +342,9 @@ def step (st : DState) (ws : List String) : DState × String :=
       | [k, v] => v.toNat?.map (fun n => (nameNat k, n))
       | _ => none)
     ({ st with bals := ps }, "ok")
-  | ["pool", ids] =>
-    let one (tok : String) : Option Tx :=
-      match tok.splitOn "/" with
-      | [i, w] => do
-        let i ← hexNat i
-        let w ← witNat w
-        pure { id := i, wit := w, sender := 0, fee := 0, netFee := 0, conflicts := [] }
-      | _ => none
-    match (if ids == "-" then some [] else (ids.splitOn ",").mapM one) with
-    | some l => ({ st with node := { st.node with pool := l } }, "ok")
+  | ["pool", toks] =>
+    match (if toks == "-" then some [] else (toks.splitOn ",").mapM parseTx) with
+    | some l => ({ st with node := { st.node with pool := l.map VTx.toTx }, poolObjs := l }, "ok")
     | none => (st, "bad-op")
   | ["sig", w, h, a, b] =>
     match witNat w, hexNat h, hexNat a, bit b with
